@@ -122,12 +122,18 @@ func newPackage(program *loader.Program, pkgInfo *loader.PackageInfo, plugins []
 		generators[plugin.Name()] = plugin.New(typesmaps[plugin.Name()], printer, deps)
 	}
 	pkg := &pkg{pkgInfo, plugins, generators, printer, nil, fullpath}
+	if vOn {
+		vtrace("PkgStart", vm{"pkg": pkgInfo.Pkg.Path(), "dir": fullpath, "files": vfiles(fileInfos), "reserved": vset(reserved), "plugins": vplugins(plugins), "autoname": autoname, "dedup": dedup})
+	}
 	for _, fileInfo := range fileInfos {
 
 		changed := false
 		calls := append(fileInfo.undefined, fileInfo.derived...)
 		for _, call := range calls {
 			// log.Printf("call: %v", call.Name)
+			if vOn {
+				vtrace("Call", vm{"file": fileInfo.fullpath, "name": call.Name, "key": vkey(call.Args), "undef": call.HasUndefined()})
+			}
 			if call.HasUndefined() {
 				// Only functions that are supported by a code generator plugin should be added to undefined.
 				// Otherwise things like functions like casts will get into the undefined loop and result in
@@ -154,11 +160,17 @@ func newPackage(program *loader.Program, pkgInfo *loader.PackageInfo, plugins []
 				}
 				changed = true
 				log.Printf("changing function call name from %s to %s", call.Name, name)
+				if vOn {
+					vtrace("Rename", vm{"file": fileInfo.fullpath, "from": call.Name, "to": name, "offset": program.Fset.Position(call.Expr.Fun.Pos()).Offset})
+				}
 				call.Expr.Fun = ast.NewIdent(name)
 			}
 		}
 
 		if changed {
+			if vOn {
+				vtrace("Rewrite", vm{"file": fileInfo.fullpath})
+			}
 			info, err := os.Stat(fileInfo.fullpath)
 			if err != nil {
 				return nil, fmt.Errorf("stat %s: %v", fileInfo.fullpath, err)
@@ -192,11 +204,20 @@ func (pkg *pkg) Add(call *call) (string, error) {
 			continue
 		}
 		generator := pkg.generators[p.Name()]
+		if vOn {
+			vtrace("Dispatch", vm{"name": call.Name, "key": vkey(call.Args), "plugin": p.Name(), "prefix": p.GetPrefix()})
+		}
 		name, err := generator.Add(call.Name, call.Args)
+		if vOn {
+			vtrace("AddRet", vm{"name": call.Name, "plugin": p.Name(), "res": name, "err": verr(err)})
+		}
 		if err != nil {
 			return "", fmt.Errorf("Add Error: %s: %v", p.Name(), err)
 		}
 		return name, nil
+	}
+	if vOn {
+		vtrace("NoPlugin", vm{"name": call.Name})
 	}
 	return "", nil
 }
@@ -219,6 +240,9 @@ func (pkg *pkg) Filename() string {
 }
 
 func (pkg *pkg) Print() error {
+	if vOn {
+		vtrace("Print", vm{"file": pkg.Filename()})
+	}
 	f, err := os.Create(pkg.Filename())
 	if err != nil {
 		return err
@@ -231,6 +255,9 @@ func (pkg *pkg) Print() error {
 
 func (pkg *pkg) Delete() error {
 	filename := pkg.Filename()
+	if vOn {
+		vtrace("Delete", vm{"file": filename})
+	}
 	_, err := os.Stat(filename)
 	if err != nil {
 		if os.IsNotExist(err) {
@@ -247,10 +274,19 @@ func (pkg *pkg) Generate() (bool, error) {
 		for _, plugin := range pkg.plugins {
 			g := pkg.generators[plugin.Name()]
 			for _, typs := range g.ToGenerate() {
+				if vOn {
+					vtrace("GenStart", vm{"plugin": plugin.Name(), "prefix": plugin.GetPrefix(), "key": vkey(typs)})
+				}
 				if err := g.Generate(typs); err != nil {
+					if vOn {
+						vtrace("GenEnd", vm{"plugin": plugin.Name(), "prefix": plugin.GetPrefix(), "key": vkey(typs), "err": verr(err)})
+					}
 					return false, fmt.Errorf("Generator Error: %s:%v", plugin.Name(), err.Error())
 				}
 				generated = true
+				if vOn {
+					vtrace("GenEnd", vm{"plugin": plugin.Name(), "prefix": plugin.GetPrefix(), "key": vkey(typs), "err": ""})
+				}
 			}
 		}
 	}
@@ -265,7 +301,13 @@ func (pg *program) Generate() error {
 	// })
 	for i := range pkgInfos {
 		if err := pg.generatePackage(pkgInfos[i]); err != nil {
+			if vOn {
+				vtrace("PkgExit", vm{"pkg": pkgInfos[i].Pkg.Path(), "err": verr(err)})
+			}
 			return err
+		}
+		if vOn {
+			vtrace("PkgExit", vm{"pkg": pkgInfos[i].Pkg.Path(), "err": ""})
 		}
 	}
 	return nil
@@ -301,6 +343,9 @@ func (pg *program) generatePackage(pkgInfo *loader.PackageInfo) error {
 		if err != nil {
 			return err
 		}
+		if vOn {
+			vtrace("PassEnd", vm{"pkg": path, "undefined": us, "generated": generated, "content": pkgGen.HasContent()})
+		}
 
 		if pkgGen.HasContent() {
 			if err := pkgGen.Print(); err != nil {
@@ -324,6 +369,9 @@ func (pg *program) generatePackage(pkgInfo *loader.PackageInfo) error {
 		undefined = newundefined
 
 		// reload path with newly generated code, with the hope that some types are now inferable.
+		if vOn {
+			vtrace("Reload", vm{"pkg": path})
+		}
 		thisprogram, err = load(path)
 		if err != nil {
 			return err
